@@ -10,6 +10,7 @@ import Driver.ChanD
 import Driver.SessD
 import Driver.SrvLifeD
 import Driver.TimedD
+import Driver.CliLifeD
 /-!
 # `limedriver` — line protocol in front of the executable model
 
@@ -34,6 +35,7 @@ def dispatch (j : Json) : R Json := do
   | "cliwants" => CliD.handleWants j
   | "clijudge" => CliD.handleJudge j
   | "build" => CodecD.handleBuild j
+  | "clientlife" => CliLifeD.handle j
   | "timed" => TimedD.handle j
   | "srvlife" => SrvLifeD.handle j
   | "sessions" => SessD.handle j
